@@ -3,7 +3,8 @@
 import json, os, sys
 ROOT = os.path.dirname(os.path.abspath(__file__))
 sys.path.insert(0, ROOT)
-from checkcfg import CONFIG, NOT_APPLICABLE, HOOK_COMMITS
+from checkcfg import CONFIG as ALLCFG, NOT_APPLICABLE, HOOK_COMMITS, PENDING
+CONFIG = {k: v for k, v in ALLCFG.items() if k not in PENDING}
 
 props = [json.loads(l) for l in open(os.path.join(ROOT, "properties.jsonl"))]
 checks = []
